@@ -25,10 +25,19 @@ PROP_FILES = ['Props/C06.v']
 LEVEL = 'partial'
 
 logging.disable(logging.CRITICAL)
+import warnings
+warnings.simplefilter('ignore')
 
 FIXED_CID = 0x3F
 SETTLE_BUDGET = 3000          # loop turns per settle before a hang is reported
 MAX_PAYLOAD = 23              # one ACL packet (fragmentation belongs to C05)
+
+
+def regen(ctx):
+    """translator obligation: the tables allocate_connection_handle consults vs the tables in which a
+    connection handle can be resolved, read from the current bumble/controller.py (fail closed)"""
+    from translate.c06_handles import coq_text
+    ctx.write_gen('C06Handles', coq_text(ctx.repo))
 
 
 class Unsupported(Exception):
@@ -261,6 +270,14 @@ def command_label(ci, packet):
         if int(c.role) != 1:
             raise Unsupported('accept with role switch is not modelled')
         return ('LClAccept', ci, enc_addr(c.bd_addr))
+    if name == 'HCI_ENHANCED_SETUP_SYNCHRONOUS_CONNECTION_COMMAND':
+        return ('LScoSetup', ci, c.connection_handle)
+    if name == 'HCI_ENHANCED_ACCEPT_SYNCHRONOUS_CONNECTION_REQUEST_COMMAND':
+        return ('LScoAccept', ci, enc_addr(c.bd_addr))
+    if name == 'HCI_LE_SET_CIG_PARAMETERS_COMMAND':
+        return ('LSetCig', ci, int(c.cig_id), [int(x) for x in c.cis_id])
+    if name == 'HCI_LE_REMOVE_CIG_COMMAND':
+        return ('LRemoveCig', ci, int(c.cig_id))
     if name in IGNORED_COMMANDS:
         return None
     raise Unsupported(f'HCI command without a model label: {name}')
@@ -276,7 +293,9 @@ def event_of(packet):
     if STATUS_COMMANDS is None:
         STATUS_COMMANDS = {hci.HCI_LE_CREATE_CONNECTION_COMMAND, hci.HCI_LE_EXTENDED_CREATE_CONNECTION_COMMAND,
                            hci.HCI_DISCONNECT_COMMAND, hci.HCI_CREATE_CONNECTION_COMMAND,
-                           hci.HCI_ACCEPT_CONNECTION_REQUEST_COMMAND}
+                           hci.HCI_ACCEPT_CONNECTION_REQUEST_COMMAND,
+                           hci.HCI_ENHANCED_SETUP_SYNCHRONOUS_CONNECTION_COMMAND,
+                           hci.HCI_ENHANCED_ACCEPT_SYNCHRONOUS_CONNECTION_REQUEST_COMMAND}
     t = type(packet).__name__
     if isinstance(packet, hci.HCI_AclDataPacket):
         return [('EAcl', packet.connection_handle, list(bytes(packet.data)))]
@@ -304,9 +323,20 @@ def event_of(packet):
         return [('EAdvReport', True, bool(int(r.event_type) & 0x08), enc_addr(r.address), list(bytes(r.data)))
                 for r in packet.reports]
     if t == 'HCI_Connection_Request_Event':
+        if int(packet.link_type) == 2:
+            return [('EScoReq', enc_addr(packet.bd_addr))]
         if int(packet.link_type) != 1:
-            raise Unsupported('SCO connection request')
+            raise Unsupported('SCO (not eSCO) connection request')
         return [('EClReq', enc_addr(packet.bd_addr))]
+    if t == 'HCI_Synchronous_Connection_Complete_Event':
+        if int(packet.status) != 0 or int(packet.link_type) != 2:
+            raise Unsupported('synchronous connection complete: error status or not eSCO')
+        return [('EScoConn', packet.connection_handle, enc_addr(packet.bd_addr))]
+    if t == 'HCI_Command_Complete_Event' and packet.command_opcode == hci.HCI_LE_SET_CIG_PARAMETERS_COMMAND:
+        rp = packet.return_parameters
+        if int(rp.status) != 0:
+            raise Unsupported('LE Set CIG Parameters failed')
+        return [('ECig', [int(h) for h in rp.connection_handle])]
     if t == 'HCI_Connection_Complete_Event':
         if int(packet.status) != 0:
             return [('EClFail', int(packet.status), enc_addr(packet.bd_addr))]
@@ -461,6 +491,12 @@ def install():
             return {'msg': ('MLmpAccepted', pub)}
         if isinstance(packet, lmp.LmpDetach):
             return {'msg': ('MLmpDetach', pub, int(packet.error_code))}
+        if isinstance(packet, lmp.LmpEscoLinkReq):
+            return {'msg': ('MLmpEscoReq', pub)}
+        if isinstance(packet, lmp.LmpAcceptedExt) and packet.response_opcode == lmp.Opcode.LMP_ESCO_LINK_REQ:
+            return {'msg': ('MLmpAcceptedEsco', pub)}
+        if isinstance(packet, (lmp.LmpRemoveScoLinkReq, lmp.LmpRemoveEscoLinkReq)):
+            return {'msg': ('MLmpRemoveSco', pub, int(packet.error_code))}
         if isinstance(packet, (lmp.LmpFeaturesReq, lmp.LmpFeaturesRes, lmp.LmpFeaturesReqExt,
                                lmp.LmpFeaturesResExt, lmp.LmpNameReq, lmp.LmpNameRes)):
             return {'passthrough': True}
@@ -501,6 +537,8 @@ class World:
         self.dev = []
         self.obs = [[] for _ in range(n)]        # per device: observation log
         self.conns = [[] for _ in range(n)]      # per device: Connection objects in event order
+        self.scos = [[] for _ in range(n)]       # per device: ScoLink objects in event order
+        self.cigs = [{} for _ in range(n)]       # per device: cig id -> CIS handles
         self.tasks = []                          # (kind, device, target, task)
         self.pub = [enc_addr(Address(pub_str(i), Address.PUBLIC_DEVICE_ADDRESS)) for i in range(n)]
         self.rnd = [enc_addr(Address(rnd_str(i))) for i in range(n)]
@@ -514,6 +552,8 @@ class World:
             d.l2cap_channel_manager.register_fixed_channel(
                 FIXED_CID, lambda h, pdu, i=i: self.obs[i].append(('rx', h, list(bytes(pdu)))))
             d.on('connection', lambda c, i=i: self._on_conn(i, c))
+            d.on('sco_request', lambda c, link_type, i=i: self._on_sco_request(i, c, link_type))
+            d.on('sco_connection', lambda l, i=i: self._on_sco(i, l))
             # a.data is the (merged) list of AD structures the application reads
             d.on('advertisement', lambda a, i=i: self.obs[i].append(
                 ('adv', enc_addr(a.address), list(bytes(a.data)), bool(a.is_scan_response))))
@@ -523,6 +563,38 @@ class World:
         k = len(self.conns[i]) - 1
         self.obs[i].append(('conn', k, c.handle, enc_addr(c.peer_address), int(c.role) == 0, int(c.transport) == 1))
         c.on('disconnection', lambda reason, i=i, k=k, c=c: self.obs[i].append(('disc', k, c.handle, int(reason))))
+
+    def _on_sco_request(self, i, connection, link_type):
+        # the application accepts every synchronous connection request (as tests/hfp_test.py does)
+        from bumble import hci, hfp
+        params = hfp.ESCO_PARAMETERS[hfp.DefaultCodecParameters.ESCO_CVSD_S1]
+        self.tasks.append(('sco_accept', i, None, asyncio.ensure_future(self.dev[i].send_command(
+            hci.HCI_Enhanced_Accept_Synchronous_Connection_Request_Command(
+                bd_addr=connection.peer_address, **params.asdict())))))
+
+    def _on_sco(self, i, l):
+        self.scos[i].append(l)
+        k = len(self.scos[i]) - 1
+        self.obs[i].append(('sco', k, l.handle, enc_addr(l.acl_connection.peer_address)))
+        l.on('disconnection', lambda reason, i=i, k=k, l=l: self.obs[i].append(('sdisc', k, l.handle, int(reason))))
+
+    def live_snapshot(self):
+        return [sorted(self.live_links(i)) for i in range(self.n)]
+
+    def live_links(self, i):
+        """links of device i that have been announced and not reported gone, from the observation log:
+        list of (kind, index, handle)"""
+        live = []
+        for o in self.obs[i]:
+            if o[0] == 'conn':
+                live.append(('acl', o[1], o[2]))
+            elif o[0] == 'sco':
+                live.append(('sco', o[1], o[2]))
+            elif o[0] == 'disc':
+                live = [x for x in live if not (x[0] == 'acl' and x[1] == o[1])]
+            elif o[0] == 'sdisc':
+                live = [x for x in live if not (x[0] == 'sco' and x[1] == o[1])]
+        return live
 
     async def settle(self):
         loop = asyncio.get_running_loop()
@@ -565,6 +637,7 @@ async def run_ops(cfg, ops_source):
     if not await w.settle():
         raise Hang('power on')
     w.ops = []
+    w.windows = []           # (device, kind, index, live links before, live links after) per disconnect
     for op in ops_source(w):
         w.ops.append(op)
         kind = op[0]
@@ -606,8 +679,49 @@ async def run_ops(cfg, ops_source):
         elif kind == 'disconnect':
             _, i, k = op
             if k < len(w.conns[i]) and w.dev[i].connections.get(w.conns[i][k].handle) is w.conns[i][k]:
+                await drain(w)
+                before = w.live_snapshot()
                 w.obs[i].append(('disc_req', k))
                 w.tasks.append(('disconnect', i, k, asyncio.ensure_future(w.conns[i][k].disconnect())))
+                await drain(w)
+                w.windows.append((i, 'acl', k, before, w.live_snapshot()))
+        elif kind == 'sco':                     # eSCO link on the BR/EDR connection #k of device i
+            _, i, k = op
+            if k < len(w.conns[i]) and w.dev[i].connections.get(w.conns[i][k].handle) is w.conns[i][k] \
+                    and int(w.conns[i][k].transport) == 0:
+                from bumble import hfp
+                params = hfp.ESCO_PARAMETERS[hfp.DefaultCodecParameters.ESCO_CVSD_S1]
+                w.tasks.append(('sco', i, k, asyncio.ensure_future(w.dev[i].send_command(
+                    hci.HCI_Enhanced_Setup_Synchronous_Connection_Command(
+                        connection_handle=w.conns[i][k].handle, **params.asdict())))))
+        elif kind == 'sco_disconnect':
+            _, i, k = op
+            if k < len(w.scos[i]) and w.dev[i].sco_links.get(w.scos[i][k].handle) is w.scos[i][k]:
+                await drain(w)
+                before = w.live_snapshot()
+                w.obs[i].append(('sdisc_req', k))
+                w.tasks.append(('sco_disconnect', i, k, asyncio.ensure_future(w.scos[i][k].disconnect())))
+                await drain(w)
+                w.windows.append((i, 'sco', k, before, w.live_snapshot()))
+        elif kind == 'cig':                     # LE Set CIG Parameters: one handle per CIS
+            _, i, cig, cis_ids = op
+            from bumble.device import CigParameters
+            t = asyncio.ensure_future(w.dev[i].setup_cig(CigParameters(
+                cig_id=cig, cis_parameters=[CigParameters.CisParameters(cis_id=x) for x in cis_ids],
+                sdu_interval_c_to_p=10000, sdu_interval_p_to_c=10000)))
+            w.tasks.append(('cig', i, cig, t))
+            if not await w.settle():
+                raise Hang(str(op))
+            if t.done() and not t.cancelled() and t.exception() is None:
+                w.obs[i].append(('cig', cig, [int(h) for h in t.result()]))
+        elif kind == 'cig_remove':
+            _, i, cig = op
+            t = asyncio.ensure_future(w.dev[i].send_sync_command(hci.HCI_LE_Remove_CIG_Command(cig_id=cig)))
+            w.tasks.append(('cig_remove', i, cig, t))
+            if not await w.settle():
+                raise Hang(str(op))
+            if t.done() and not t.cancelled() and t.exception() is None:
+                w.obs[i].append(('cig_removed', cig))
         elif kind == 'tick':                    # the advertising timer of device i fires
             _, i = op
             c = w.ctrl[i]
@@ -675,10 +789,28 @@ async def run_ops(cfg, ops_source):
                          None if p is None else [enc_addr(p.peer_address), int(p.own_address_type) == 0],
                          bool(c.le_legacy_advertiser.enabled),
                          [[h, bool(s.enabled)] for h, s in c.advertising_sets.items()],
-                         [bool(c.le_scan_enable), int(c.le_scan_type) == 1]])
+                         [bool(c.le_scan_enable), int(c.le_scan_type) == 1],
+                         [[[enc_addr(k.peer_address), k.handle] for k in c.sco_links.values()],
+                          [[l.handle, l.cig_id, l.cis_id] for l in c.central_cis_links.values()]]])
+        if c.peripheral_cis_links:
+            w.rec.unsupported = w.rec.unsupported or 'peripheral CIS links are not modelled'
     w.in_flight = [[m['src'], m['dst'], _js(m['msg'])] for m in w.rec.held]
     Recorder.active = None
     return w
+
+
+async def drain(w):
+    """deliver everything in flight, oldest first, until the link is quiet"""
+    r = w.rec
+    for _ in range(2000):
+        if not await w.settle():
+            raise Hang('drain')
+        if not r.held:
+            return
+        m = r.held.pop(0)
+        r.releasing = 0
+        asyncio.get_running_loop().really_soon(m['cb'], *m['args'])
+    raise Hang('drain never ends')
 
 
 def _addr_of(target):
@@ -827,6 +959,24 @@ class Generator:
                 choices += ['cl_connect']
             if usable:
                 choices += ['send'] * 5 + ['disconnect']
+            live_sco = sorted((i, k) for i in range(n) for k, l in enumerate(w.scos[i])
+                              if w.dev[i].sco_links.get(l.handle) is l)
+            lmp_quiet = not any(m['msg'][0].startswith('MLmp') for m in r.held)
+            sco_able = [key for key in usable if int(live[key].transport) == 0 and lmp_quiet
+                        and not any(l.acl_connection is live[key] for l in w.scos[key[0]]
+                                    if w.dev[key[0]].sco_links.get(l.handle) is l)
+                        and not any(kind in ('sco', 'sco_accept') and not t.done() for (kind, d, tg, t) in w.tasks)]
+            # one synchronous link per pair of devices at a time
+            sco_pairs = {frozenset((i, w.owner(enc_addr(w.scos[i][k].acl_connection.peer_address)))) for (i, k) in live_sco}
+            sco_able = [key for key in sco_able
+                        if frozenset((key[0], w.owner(enc_addr(live[key].peer_address)))) not in sco_pairs]
+            if sco_able:
+                choices += ['sco'] * 2
+            if live_sco and lmp_quiet:
+                choices += ['sco_disconnect']
+            choices += ['cig']
+            if any(w.cigs[i] for i in range(n)):
+                choices += ['cig_remove']
             if not choices:
                 choices = ['adv']
             ch = rng.choice(choices)
@@ -877,6 +1027,23 @@ class Generator:
                 payload_id += 1
                 body = [payload_id % 256, payload_id // 256] + list(rng.bytes(rng.choice([0, 1, 5, MAX_PAYLOAD - 2])))
                 yield ['send', i, k, body]
+            elif ch == 'sco':
+                i, k = rng.choice(sco_able)
+                yield ['sco', i, k]
+                yield ['flush']
+            elif ch == 'sco_disconnect':
+                i, k = rng.choice(live_sco)
+                yield ['sco_disconnect', i, k]
+            elif ch == 'cig':
+                i = rng.below(n)
+                cig = rng.choice([0, 1, 2])
+                w.cigs[i][cig] = True
+                yield ['cig', i, cig, list(range(rng.choice([1, 2, 3])))]
+            elif ch == 'cig_remove':
+                i = rng.choice([i for i in range(n) if w.cigs[i]])
+                cig = rng.choice(sorted(w.cigs[i]))
+                del w.cigs[i][cig]
+                yield ['cig_remove', i, cig]
             elif ch == 'disconnect':
                 i, k = rng.choice(usable)
                 # drain first: a PDU racing with the disconnection may legitimately be lost
@@ -887,6 +1054,81 @@ class Generator:
         for i in sorted(adv):
             yield ['tick', i]
         yield ['flush']
+
+
+def gen_multilink(rng):
+    """Device 0 collects links of every kind -- BR/EDR ACL, eSCO, CIS handles, LE ACL -- towards devices 1 and 2
+    in a random order, while the others hold links of their own; then every link of device 0 is taken down, in a
+    random order.  Returns (cfg, ops); connection / sco indices are those of the event order at device 0."""
+    cfg = {'n': 3, 'ext': [False, False, False]}
+    ops = []
+    acl = {}                      # peer -> connection index at device 0
+    nconn = 0
+    nconn_peer = {1: 0, 2: 0}     # connection indices at the peers
+    nsco = 0
+    links = []                    # what device 0 holds: ('acl', idx) / ('sco', idx) / ('cig', id)
+    steps = ['acl1', 'sco1', 'cig', 'acl2'] + rng.choice([[], ['sco2'], ['le2'], ['sco2', 'le2'], ['cig2']])
+    # the first ACL comes first (the eSCO link needs it); everything else in any order that respects "ACL before its SCO"
+    rest = rng.shuffle(steps[1:])
+    order = ['acl1']
+    for st in rest:
+        if st == 'sco2' and 'acl2' not in order:
+            order.append('acl2')
+        if st not in order:
+            order.append(st)
+    if rng.chance(1, 2):
+        # the peers are also connected to each other, so their handle numbering differs from device 0's
+        ops += [['cl_connect', 1, ['pub', 2]], ['flush']]
+        nconn_peer[1] += 1
+        nconn_peer[2] += 1
+    for st in order:
+        if st in ('acl1', 'acl2'):
+            p = 1 if st == 'acl1' else 2
+            if rng.chance(1, 2):
+                ops += [['cl_connect', 0, ['pub', p]], ['flush']]
+            else:
+                ops += [['cl_connect', p, ['pub', 0]], ['flush']]
+            acl[p] = nconn
+            links.append(('acl', nconn))
+            nconn += 1
+            nconn_peer[p] += 1
+        elif st in ('sco1', 'sco2'):
+            p = 1 if st == 'sco1' else 2
+            if rng.chance(2, 3):
+                ops += [['sco', 0, acl[p]], ['flush']]
+            else:
+                ops += [['sco', p, nconn_peer[p] - 1], ['flush']]
+            links.append(('sco', nsco))
+            nsco += 1
+        elif st in ('cig', 'cig2'):
+            cig = 0 if st == 'cig' else 1
+            ops += [['cig', 0, cig, list(range(rng.choice([1, 2])))]]
+            links.append(('cig', cig))
+        elif st == 'le2':
+            own_pub = rng.chance(1, 2)
+            ops += [['adv', 2, own_pub, data_for(2, 'adv'), data_for(2, 'srsp')], ['flush'],
+                    ['connect', 0, ['pub' if own_pub else 'rnd', 2], rng.chance(1, 2)], ['tick', 2], ['flush']]
+            links.append(('acl', nconn))
+            nconn += 1
+            nconn_peer[2] += 1
+    # some traffic, then every link of device 0 goes, in a random order
+    pid = 0
+    for kind, idx in links:
+        if kind == 'acl':
+            pid += 1
+            ops += [['send', 0, idx, [pid, 0, 7]]]
+    ops += [['flush']]
+    for kind, idx in rng.shuffle(links):
+        if kind == 'acl':
+            ops += [['disconnect', 0, idx]]
+        elif kind == 'sco':
+            ops += [['sco_disconnect', rng.choice([0, 0, 'peer']), idx]]
+        else:
+            ops += [['cig_remove', 0, idx]]
+    ops += [['flush']]
+    # 'peer' placeholders: the sco link is disconnected from device 0 (index known there)
+    ops = [[o[0], 0, o[2]] if o[0] == 'sco_disconnect' and o[1] == 'peer' else o for o in ops]
+    return cfg, ops
 
 
 def replay_source(ops):
@@ -908,17 +1150,59 @@ def oracle(w):
         for o in w.obs[i]:
             if o[0] == 'conn':
                 recs.append((i,) + tuple(o[1:]))
-    # 1. handles live and distinct per device
+    # 1. handles live and distinct per device, over every kind of link (ACL LE / BR/EDR, SCO, CIS)
     for i in range(n):
-        live = {}
+        live = []                               # (kind, index, handle)
+        def add(kind, idx, h):
+            clash = [x for x in live if x[2] == h]
+            if clash:
+                bad.append(('handle-reuse', f'device {i}: handle {h} given to {kind} #{idx} while '
+                                            f'{clash[0][0]} #{clash[0][1]} still uses it'))
+            live.append((kind, idx, h))
         for o in w.obs[i]:
             if o[0] == 'conn':
-                if o[2] in live:
-                    bad.append(('handle-reuse', f'device {i}: handle {o[2]} given to connection #{o[1]} while '
-                                                f'connection #{live[o[2]]} still uses it'))
-                live[o[2]] = o[1]
+                add('connection', o[1], o[2])
+            elif o[0] == 'sco':
+                add('sco link', o[1], o[2])
+            elif o[0] == 'cig':
+                # LE Set CIG Parameters replaces the CIG: its old CIS handles are released first
+                live = [x for x in live if not (x[0] == 'cis of cig' and x[1] == o[1])]
+                for h in o[2]:
+                    add('cis of cig', o[1], h)
             elif o[0] == 'disc':
-                live.pop(o[2], None)
+                live = [x for x in live if not (x[0] == 'connection' and x[1] == o[1])]
+            elif o[0] == 'sdisc':
+                live = [x for x in live if not (x[0] == 'sco link' and x[1] == o[1])]
+            elif o[0] == 'cig_removed':
+                live = [x for x in live if not (x[0] == 'cis of cig' and x[1] == o[1])]
+    # 1b. a disconnect of one link concludes exactly that link, at both ends, and nothing else goes away
+    peer_of = {}
+    for i in range(n):
+        for o in w.obs[i]:
+            if o[0] == 'conn':
+                peer_of[(i, 'acl', o[1])] = o[3]
+            elif o[0] == 'sco':
+                peer_of[(i, 'sco', o[1])] = o[3]
+    for (i, kind, k, before, after) in w.windows:
+        gone = [[x for x in before[d] if x not in after[d]] for d in range(n)]
+        new = [[x for x in after[d] if x not in before[d]] for d in range(n)]
+        j = own(peer_of.get((i, kind, k)))
+        mine = (w.pub[i], w.rnd[i])
+        what = f'device {i} disconnected its {kind} link #{k}'
+        if [x[:2] for x in gone[i]] != [(kind, k)]:
+            bad.append(('disconnect-wrong-link', f'{what}: at device {i} the links that went away are {gone[i]}'))
+        for d in range(n):
+            if new[d]:
+                bad.append(('disconnect-wrong-link', f'{what}: new links {new[d]} appeared at device {d}'))
+            if d == i:
+                continue
+            if d == j:
+                ok = len(gone[d]) == 1 and gone[d][0][0] == kind and peer_of.get((d, kind, gone[d][0][1])) in mine
+                if not ok:
+                    bad.append(('disconnect-wrong-link', f'{what} (peer device {j}): at device {d} the links that '
+                                                         f'went away are {gone[d]}'))
+            elif gone[d]:
+                bad.append(('disconnect-wrong-link', f'{what} (peer device {j}): device {d} lost {gone[d]}'))
     # 2. the caller of connect() is handed the connection to the address it asked for
     asked = {}                                  # (i, target enc) -> count
     for kind, i, target, status, k in w.results:
@@ -985,6 +1269,16 @@ def oracle(w):
                 bad.append(('asymmetric', f'device {i} holds connection #{k} to {peer} (device {j}, '
                                           f'{"central" if central else "peripheral"}, {"LE" if le else "BR/EDR"}) but device '
                                           f'{j} holds {len(mirrors)} matching connections'))
+    # synchronous links: every live one has a live mirror on the peer device
+    def live_sco(i):
+        return [(k, enc_addr(l.acl_connection.peer_address)) for k, l in enumerate(w.scos[i])
+                if w.dev[i].sco_links.get(l.handle) is l]
+    for i in range(n):
+        for (k, peer) in live_sco(i):
+            j = own(peer)
+            if j is None or sum(1 for (_, p) in live_sco(j) if p == w.pub[i]) != 1:
+                bad.append(('asymmetric-sco', f'device {i} holds sco link #{k} with {peer} (device {j}) without exactly '
+                                              f'one matching link there'))
     # 4. every PDU is delivered exactly once, in order, to the peer of its connection and to nobody else
     sent = {}                                   # (i, k) -> [payload]
     for i in range(n):
@@ -1139,8 +1433,10 @@ def label_coq(l):
         return f'LAcl {nat(l[1])} {coq_z(l[2])} {by(l[3])}'
     if k == 'LDisconnect':
         return f'LDisconnect {nat(l[1])} {coq_z(l[2])} {coq_z(l[3])}'
-    if k in ('LClConnect', 'LClAccept'):
+    if k in ('LClConnect', 'LClAccept', 'LScoSetup', 'LScoAccept', 'LRemoveCig'):
         return f'{k} {nat(l[1])} {coq_z(l[2])}'
+    if k == 'LSetCig':
+        return f'LSetCig {nat(l[1])} {coq_z(l[2])} {by(l[3])}'
     if k == 'LDeliver':
         return f'LDeliver {nat(l[1])}'
     raise ValueError(l)
@@ -1196,9 +1492,9 @@ def compare(w, mres):
             return (f'link sends of label #{idx} {label}', mo, io)
     mt = []
     for t in mtables:
-        le, cl, pend, leg, sets, scan = t
+        le, cl, pend, leg, sets, scan, (sco, cis) = t
         mt.append([[list(x) for x in le], [list(x) for x in cl], None if pend is None else list(_some(pend)), leg,
-                   [list(x) for x in sets], list(scan)])
+                   [list(x) for x in sets], list(scan), [[list(x) for x in sco], [list(x) for x in cis]]])
     if mt != w.tables:
         return ('final tables', mt, w.tables)
     mn = [[int(s), int(d), _js(norm_msg(m))] for ((s, d), m) in [_unpair(p) for p in mnet]]
@@ -1346,7 +1642,7 @@ def run(ctx):
                 else:
                     ctx.violation(sig + ':' + name, f'{name}: {text}', {'cfg': cfg, 'ops': ops})
             pending.append((name, w, {'cfg': cfg, 'ops': ops}))
-    total = ctx.n(60, 2500)
+    total = ctx.n(50, 2500)
     for s in range(total):
         cfg = gen_config(rng)
         mode = 'delayed' if s % 2 else 'natural'
@@ -1354,6 +1650,10 @@ def run(ctx):
         g = Generator(rng.fork(f'scenario{s}'), length, mode)
         run_case(ctx, f'{mode}{s}', cfg, g, pending, sample=(s < 2))
         ctx.count('mode.' + mode)
+    for s in range(ctx.n(16, 400)):
+        cfg, ops = gen_multilink(rng.fork(f'multilink{s}'))
+        run_case(ctx, f'multilink{s}', cfg, replay_source(ops), pending, sample=(s < 1))
+        ctx.count('mode.multilink')
     ctx.log(f'{len(pending)} scenarios run on the implementation; evaluating the model')
     evaluate_models(ctx, pending)
     ctx.log('model evaluated')
@@ -1363,6 +1663,11 @@ def search(ctx):
     """proof or correspondence broke: look for an input on which the oracle fails"""
     rng = ctx.rng.fork('search')
     pending = []
+    for s in range(60):
+        cfg, ops = gen_multilink(rng.fork(f'multilink{s}'))
+        run_case(ctx, f'search-multilink{s}', cfg, replay_source(ops), pending)
+        if ctx.violations:
+            return
     for s in range(300):
         cfg = gen_config(rng)
         g = Generator(rng.fork(f'search{s}'), rng.choice([25, 40, 60]), 'delayed' if s % 2 else 'natural')
